@@ -47,6 +47,10 @@ TEXT = {
         "level": "Proof: execute_once returns Ok without awaiting termination exactly when termination was received or no root reported an actual service; a root counts as service root iff its Ok{Service} had actual; build actors answer service requests with actual=false, service actors with true, aggregates with 'some dependency reported actual'; at most one child of a service actor is live and restart stops before it spawns; the service actor ends with its child killed and waited.",
         "note": ACT_NOTE,
     },
+    "C16": {
+        "level": "Proof, for every path and event: is_tmp_editor_file is total (no unwrap: a path without file name is not a temporary; non-UTF-8 names are decoded lossily) and equals `*~` or (`.*` and (`*.swp` or `*.swx`)); the event filter is exactly not-temporary and not-under-.zinoma and extension-match; a notify error or an event without relevant path sends nothing, an event with a relevant path does exactly one try_send whose full-slot result is not an error; a missing watched path is skipped, every declared path is handed to notify.",
+        "note": "Assumed: str/Path predicates are uninterpreted (A-str; their byte-level bodies are only exercised by bounded Kani harnesses), notify delivers events for paths existing at watch() time (A-notify), iterator adapters filter/collect (A-all), capacity-1 channel try_send (A-chan).",
+    },
     "C18": {
         "level": "Proof (frame conditions): incremental::run, delete_saved_env_state and save_env_state change the state store at the target's own path only, and that path is a function of (project_dir, target id) only; the skip decision is a function of the record at that path and of the world restricted to the target's own resources (nothing else is read by the contracted functions).",
         "note": INC_NOTE + " Not covered: injectivity of the file-name formatting; that project_dir is canonical (load path).",
